@@ -22,6 +22,12 @@ Read from the LIVE source (ast of `inspect.getsource`, `inspect.signature`) on e
   limitDenominators         the arguments of `limit_denominator` in create_divs_from_beats
   lexsortKeys               the field names of `np.lexsort((...))` in note_array_to_score, in order ("@onset"/"@duration" for
                             the `onset_time` / `duration_time` variables)
+  rescaledColumns           (round 6) per part-list function, the columns `X` of the statements `na["X"] = na["X"] * time_mult`
+                            / `na["X"] *= time_mult`, sorted (note_array_from_part_list: three; rest_array_from_part_list: none)
+  forcedOptions             (round 6) the `kwargs["include_..."] = True` statements of note_array_from_part_list
+  emptyPartDivs             (round 6) `part_na[0]["divs_pq"] if len(part_na) else 1`: (column read, divisions of an empty table)
+  collapseSums              (round 6) the columns `X` of `rest_array[i]["X"] = rest["X"] + rest_array[idx]["X"]` in collapse_rests, sorted
+  collapseAdjacency         (round 6) the column names inside the `np.where(...)` of collapse_rests, sorted (with repetitions)
   unreadable                the items whose source form could not be read (left empty; their theorems hold vacuously)
   tsCase / ksCase           the column names that switch the time / key signature columns on in note_array_to_score
   tsLoopFields / ksLoopFields   the columns the change-collecting loops compare / read
@@ -244,6 +250,80 @@ def lexsort_keys(fn):
     return out
 
 
+def _sub_const(n):
+    """the string `X` of a subscript `e["X"]`, else None"""
+    if isinstance(n, ast.Subscript) and isinstance(n.slice, ast.Constant) and isinstance(n.slice.value, str):
+        return n.slice.value
+    return None
+
+
+def rescaled_columns(fn, required):
+    """columns multiplied in place by a multiplier: `na["X"] = na["X"] * m` or `na["X"] *= m`"""
+    f = _tree(fn)
+    out = []
+    for n in ast.walk(f):
+        if isinstance(n, ast.Assign) and len(n.targets) == 1 and _sub_const(n.targets[0]) is not None \
+                and isinstance(n.value, ast.BinOp) and isinstance(n.value.op, ast.Mult):
+            col = _sub_const(n.targets[0])
+            if _sub_const(n.value.left) != col and _sub_const(n.value.right) != col:
+                raise Unexpected("a column assigned a product of another column in %s" % fn.__name__)
+            out.append((n.lineno, col))
+        elif isinstance(n, ast.AugAssign) and isinstance(n.op, ast.Mult) and _sub_const(n.target) is not None:
+            out.append((n.lineno, _sub_const(n.target)))
+    if required and not out:
+        raise Unexpected("no rescaling statement found in %s" % fn.__name__)
+    return sorted(c for _, c in out)  # the statements are independent: their order is not part of the item
+
+
+def forced_options(fn):
+    f = _tree(fn)
+    out = []
+    for n in ast.walk(f):
+        if isinstance(n, ast.Assign) and len(n.targets) == 1 and _sub_const(n.targets[0]) is not None \
+                and isinstance(n.targets[0].value, ast.Name) and n.targets[0].value.id == "kwargs" \
+                and isinstance(n.value, ast.Constant) and isinstance(n.value.value, bool):
+            out.append((_sub_const(n.targets[0]), "true" if n.value.value else "false"))
+    if not out:
+        raise Unexpected("no kwargs[...] = True in %s" % fn.__name__)
+    return out
+
+
+def empty_part_divs(fn):
+    f = _tree(fn)
+    out = []
+    for n in ast.walk(f):
+        if isinstance(n, ast.IfExp) and isinstance(n.orelse, ast.Constant) and isinstance(n.orelse.value, int) \
+                and _sub_const(n.body) is not None:
+            out.append((_sub_const(n.body), int(n.orelse.value)))
+    if len(out) != 1:
+        raise Unexpected("`<table>[0][col] if len(<table>) else <int>` expected once in %s" % fn.__name__)
+    return out
+
+
+def collapse_sums(fn):
+    f = _tree(fn)
+    out = []
+    for n in ast.walk(f):
+        if isinstance(n, ast.Assign) and len(n.targets) == 1 and _sub_const(n.targets[0]) is not None \
+                and isinstance(n.value, ast.BinOp) and isinstance(n.value.op, ast.Add):
+            col = _sub_const(n.targets[0])
+            if _sub_const(n.value.left) != col or _sub_const(n.value.right) != col:
+                raise Unexpected("collapse_rests: a column assigned the sum of other columns")
+            out.append((n.lineno, col))
+    if not out:
+        raise Unexpected("collapse_rests: no summing statement")
+    return sorted(c for _, c in out)  # independent statements: order is not part of the item
+
+
+def collapse_adjacency(fn):
+    f = _tree(fn)
+    calls = [n for n in ast.walk(f) if isinstance(n, ast.Call) and isinstance(n.func, ast.Attribute) and n.func.attr == "where"]
+    if len(calls) != 1:
+        raise Unexpected("collapse_rests: one np.where expected")
+    subs = [_sub_const(n) for n in ast.walk(calls[0].args[0]) if _sub_const(n) is not None]
+    return sorted(subs)  # `a == b` / `b == a`, `p & q` / `q & p` are the same test: the multiset of columns is the item
+
+
 def case_lists(fn):
     f = _tree(fn)
     out = {}
@@ -277,7 +357,8 @@ def loop_fields(fn, case):
 
 ITEMS = ("noteFields", "restFields", "noteMaps", "restMaps", "noteListKw", "restListKw", "defaults", "voiceSentinels",
          "staffFallbacks", "idPrefixFormats", "sortKinds", "limitDenominators", "lexsortKeys", "tsCase", "ksCase",
-         "tsLoopFields", "ksLoopFields")
+         "tsLoopFields", "ksLoopFields", "rescaledColumns", "forcedOptions", "emptyPartDivs", "collapseSums",
+         "collapseAdjacency")
 
 
 def extract():
@@ -324,6 +405,12 @@ def extract():
         "ksCase": lambda: case_lists(N.note_array_to_score)["ks_case"],
         "tsLoopFields": lambda: loop_fields(N.note_array_to_score, "ts_case"),
         "ksLoopFields": lambda: loop_fields(N.note_array_to_score, "ks_case"),
+        "rescaledColumns": lambda: [("note_array_from_part_list", rescaled_columns(M.note_array_from_part_list, True)),
+                                    ("rest_array_from_part_list", rescaled_columns(M.rest_array_from_part_list, False))],
+        "forcedOptions": lambda: forced_options(M.note_array_from_part_list),
+        "emptyPartDivs": lambda: empty_part_divs(M.note_array_from_part_list),
+        "collapseSums": lambda: collapse_sums(M.collapse_rests),
+        "collapseAdjacency": lambda: collapse_adjacency(M.collapse_rests),
     }
     d, bad = {}, []
     for k in ITEMS:
@@ -370,6 +457,12 @@ def gen_c05():
         "(%s, %s)" % (_lstr(a), _llist(_lstr(x) for x in b)) for a, b in d["sortKinds"]))
     w("def limitDenominators : List Nat := %s\n" % _llist("%d" % x for x in d["limitDenominators"]))
     for name in ("lexsortKeys", "tsCase", "ksCase", "tsLoopFields", "ksLoopFields"):
+        w("def %s : List String := %s\n" % (name, _llist(_lstr(x) for x in d[name])))
+    w("def rescaledColumns : List (String × List String) := %s\n" % _llist(
+        "(%s, %s)" % (_lstr(a), _llist(_lstr(x) for x in b)) for a, b in d["rescaledColumns"]))
+    w("def forcedOptions : List (String × String) := %s\n" % _llist("(%s, %s)" % (_lstr(a), _lstr(b)) for a, b in d["forcedOptions"]))
+    w("def emptyPartDivs : List (String × Int) := %s\n" % _llist("(%s, %s)" % (_lstr(a), _lint(b)) for a, b in d["emptyPartDivs"]))
+    for name in ("collapseSums", "collapseAdjacency"):
         w("def %s : List String := %s\n" % (name, _llist(_lstr(x) for x in d[name])))
     w("end Gen.C05")
     return "\n".join(out) + "\n"
